@@ -652,6 +652,10 @@ def run(rep, tier):
         # 'as an on-demand key': where the key literal ends is decided by the escape scanner (carry hand-over and bit trick)
         c10.clause_escape_carry(facts, rep, nss)
         c10.clause_escaped_bits(facts, rep, tier)
+        # ... and the quote / backslash bitmaps the skipper works on carry no bits above the lane count (shared with C15)
+        from . import c15 as _c15
+        _c15.clause_f(facts, rep)
+        _c15.clause_g(facts, rep)
         # 'GetParseError() in {UnEscaped, EscapedFormat, EscapedUnicode}': the class set by the string scanner is kept (shared with C01)
         from . import c01 as _c01
         _c01.clause_first_error(facts, rep)
